@@ -3,6 +3,8 @@ package frame
 import (
 	"bytes"
 
+	"github.com/datastax/go-cassandra-native-protocol/compression/lz4"
+	"github.com/datastax/go-cassandra-native-protocol/compression/snappy"
 	nd "github.com/datastax/go-cassandra-native-protocol/internal/zzverifnd"
 	"github.com/datastax/go-cassandra-native-protocol/primitive"
 )
@@ -126,4 +128,157 @@ func VerifC02_EncodeHeaderUnsupportedVersion() {
 		nd.Assert(err != nil, "unsupported version is refused by the encoder")
 		nd.Assert(buf.Len() == 0, "nothing written for an unsupported version")
 	}
+}
+
+// verifPartialOps (C05): the raw / header-only operations agree with the full codec.
+func verifPartialOps(kind string, v primitive.ProtocolVersion) {
+	f := verifFrame(kind, v, false)
+	c := NewRawCodec()
+	buf := &bytes.Buffer{}
+	err := c.EncodeFrame(f, buf)
+	nd.Assert(err == nil, "version-valid frame encodes without error")
+	if err != nil {
+		return
+	}
+	b := append([]byte{}, buf.Bytes()...)
+	hl := v.FrameHeaderLengthInBytes()
+	suffix := nd.Bytes("suffix", 2)
+	withSuffix := append(append([]byte{}, b...), suffix...)
+
+	// (1) DecodeRawFrame + ConvertFromRawFrame == DecodeFrame
+	src := bytes.NewBuffer(append([]byte{}, withSuffix...))
+	raw, err := c.DecodeRawFrame(src)
+	nd.Assert(err == nil, "raw frame decodes")
+	if err == nil {
+		nd.Assert(src.Len() == 2, "DecodeRawFrame consumes exactly header + declared body length")
+		nd.Assert(bytes.Equal(raw.Body, b[hl:]), "raw body is the encoded body")
+		g, err := c.ConvertFromRawFrame(raw)
+		nd.Assert(err == nil, "raw frame converts")
+		if err == nil {
+			verifEq_PFrame("raw->frame", f, g)
+		}
+	}
+	// (2) ConvertToRawFrame + EncodeRawFrame gives the same bytes
+	raw2, err := c.ConvertToRawFrame(f)
+	nd.Assert(err == nil, "frame converts to raw")
+	if err == nil {
+		out := &bytes.Buffer{}
+		err = c.EncodeRawFrame(raw2, out)
+		nd.Assert(err == nil, "raw frame encodes")
+		nd.Assert(bytes.Equal(out.Bytes(), b), "ConvertToRawFrame+EncodeRawFrame emits the bytes of EncodeFrame")
+	}
+	// (3) header then body / raw body / discard, seekable and non-seekable sources
+	for mode := 0; mode < 5; mode++ {
+		var rd interface {
+			Read([]byte) (int, error)
+			Len() int
+		}
+		if mode%2 == 0 {
+			rd = bytes.NewReader(withSuffix)
+		} else {
+			rd = bytes.NewBuffer(append([]byte{}, withSuffix...))
+		}
+		h, err := c.DecodeHeader(rd)
+		nd.Assert(err == nil, "header decodes")
+		if err != nil {
+			continue
+		}
+		nd.Assert(int(h.BodyLength) == len(b)-hl, "decoded header length is the emitted body length")
+		switch mode {
+		case 0, 1:
+			err = c.DiscardBody(h, rd)
+			nd.Assert(err == nil, "DiscardBody succeeds")
+		case 2, 3:
+			var rb []byte
+			rb, err = c.DecodeRawBody(h, rd)
+			nd.Assert(err == nil, "DecodeRawBody succeeds")
+			nd.Assert(bytes.Equal(rb, b[hl:]), "DecodeRawBody returns the encoded body")
+		case 4:
+			var body *Body
+			body, err = c.DecodeBody(h, rd)
+			nd.Assert(err == nil, "DecodeBody succeeds")
+			if err == nil {
+				verifEq_PBody("header+body", f.Body, body)
+			}
+		}
+		nd.Assert(rd.Len() == 2, "reader stands exactly after the declared body length")
+	}
+	// (4) EncodeHeader + EncodeBody writes the same bytes
+	out := &bytes.Buffer{}
+	err = c.EncodeHeader(f.Header, out)
+	nd.Assert(err == nil, "header encodes")
+	err = c.EncodeBody(f.Header, f.Body, out)
+	nd.Assert(err == nil, "body encodes")
+	nd.Assert(bytes.Equal(out.Bytes(), b), "EncodeHeader+EncodeBody emits the bytes of EncodeFrame")
+}
+
+// verifReencode (C05, last clause): any input that decodes, re-encoded, decodes again to an equal frame.
+// The input is fully symbolic apart from the version (one harness per version) and its length.
+func verifReencode(v primitive.ProtocolVersion, n int) {
+	nd.AllocBound(n)
+	b := nd.Bytes("in", n)
+	b[0] = byte(v) | (b[0] & 0x80)
+	c := NewRawCodec()
+	g, err := c.DecodeFrame(bytes.NewReader(b))
+	if err != nil {
+		nd.Assert(g == nil, "a rejected input yields no frame")
+		return
+	}
+	buf := &bytes.Buffer{}
+	err = c.EncodeFrame(g, buf)
+	if err != nil {
+		// e.g. a frame the decoder accepts but the encoder refuses to produce; the clause speaks of inputs that are re-encoded
+		nd.Note("decodable input that the encoder refuses to re-encode")
+		nd.Assert(true, "not re-encodable")
+		return
+	}
+	g2, err := c.DecodeFrame(buf)
+	nd.Assert(err == nil, "re-encoded bytes decode")
+	if err == nil {
+		verifEq_PFrame("reencode", g, g2)
+	}
+}
+
+func verifReencodeLen() int {
+	if verifThorough {
+		return 9 + 9
+	}
+	return 9 + 5
+}
+
+func VerifC05_Reencode_v2()   { verifReencode(primitive.ProtocolVersion2, verifReencodeLen()-1) }
+func VerifC05_Reencode_v3()   { verifReencode(primitive.ProtocolVersion3, verifReencodeLen()) }
+func VerifC05_Reencode_v4()   { verifReencode(primitive.ProtocolVersion4, verifReencodeLen()) }
+func VerifC05_Reencode_v5()   { verifReencode(primitive.ProtocolVersion5, verifReencodeLen()) }
+func VerifC05_Reencode_dse1() { verifReencode(primitive.ProtocolVersionDse1, verifReencodeLen()) }
+func VerifC05_Reencode_dse2() { verifReencode(primitive.ProtocolVersionDse2, verifReencodeLen()) }
+
+// ---- compression variants (C01 with LZ4 / Snappy): the block compressors are contract stubs under the engine ----
+
+func verifRoundTripCompressed(kind string, v primitive.ProtocolVersion, alg int, policy int) {
+	nd.CompressPolicy(policy)
+	f := verifFrame(kind, v, true)
+	var bc BodyCompressor
+	if alg == 0 {
+		bc = lz4.Compressor{}
+	} else {
+		bc = snappy.Compressor{}
+	}
+	codec := NewRawCodecWithCompression(bc)
+	buf := &bytes.Buffer{}
+	err := codec.EncodeFrame(f, buf)
+	nd.Assert(err == nil, "version-valid frame encodes with compression")
+	if err != nil {
+		return
+	}
+	nd.Assert(int(f.Header.BodyLength) == buf.Len()-v.FrameHeaderLengthInBytes(), "header body length equals emitted (compressed) body bytes")
+	suffix := nd.Bytes("suffix", 2)
+	buf.Write(suffix)
+	g, err := codec.DecodeFrame(buf)
+	nd.Assert(err == nil, "compressed frame decodes without error")
+	if err != nil {
+		return
+	}
+	verifEq_PFrame("frame", f, g)
+	nd.Assert(buf.Len() == 2, "decoder consumed exactly header + declared body length")
 }
